@@ -88,6 +88,13 @@ def build_pair(cfg, spilog=True, horizon=20 * 1000 * MS):
             a.__exit__(None, None, None)
             w.advance(300 * US)
             a.__enter__()
+    if cfg.get("tx_hist") == "power":
+        # both radios were put to sleep and woken up again (documented `power` attribute): the link works as before
+        a.power = False
+        b.power = False
+        w.advance(1 * MS)
+        b.power = True
+        a.power = True
     w.advance(300 * US)
     return w, a, ra, b, rb
 
